@@ -345,6 +345,9 @@ def parse_youtube_url(url, fix_common_mistakes=True):
 
         user = splitted_path[1]
 
+        if not user:
+            return None
+
         return YoutubeUser(id=None, name=user)
 
     # Channel path?
@@ -372,6 +375,9 @@ def parse_youtube_url(url, fix_common_mistakes=True):
             return None
 
         cid = splitted_path[1]
+
+        if not cid:
+            return None
 
         return YoutubeChannel(id=cid, name=None)
 
